@@ -473,6 +473,24 @@ def run_tendencies(case):
                        op=op, input=i, equation=cfg['eq'])
         if bad is not None:
           return bad
+  # history: an equation object that has already been evaluated is copied and re-configured with the transformed
+  # orography (the equation classes are plain mutable dataclasses); it must behave like a freshly built one --
+  # nothing derived from the old orography may survive on the copy
+  if model.has_orography and states and ops:
+    import copy
+    s0, sym0 = states[0], syms[0]
+    eq0 = model.equation(model.orography)
+    t0 = eq0.explicit_terms(s0)
+    eq1 = copy.copy(eq0)
+    eq1.orography = sym0.modal(model.orography)
+    got = eq1.explicit_terms(sym0.tree(s0))
+    bad = _compare(out, got, sym0.tree(t0), 'explicit_terms of a copied, re-configured equation object '
+                   '(S x; S orography) != S explicit_terms(x)', model.floors(s0), op=ops[0], input=0,
+                   equation=cfg['eq'])
+    if bad is not None:
+      return bad
+    out.labels = list(out.labels) + ['reconfigured_copy_checked']
+    out.units += 1
   return out
 
 
